@@ -647,7 +647,16 @@ pub fn run(sc: &Value) -> Vec<String> {
     for i in 0..n {
         let k = [0, 1, 2, 5][i % 4];
         let txs: Vec<Transaction> = (0..k).map(|_| transaction(&mut rng)).collect();
-        let l = TransactionList::from_vec(txs.clone());
+        // built through the public new() / add() on odd rounds, through from_vec on even ones
+        let l = if i % 2 == 1 {
+            let mut l = TransactionList::new();
+            for t in &txs {
+                l.add(t.clone());
+            }
+            l
+        } else {
+            TransactionList::from_vec(txs.clone())
+        };
         let lv = |y: &TransactionList| Value::Array(y.as_vec().iter().map(tx_v).collect());
         cline(&mut out, &mut encs, "txlist", lv(&l), Some(rt_text(&l, lv)), None, Value::Null);
         let mut m = MatchResult::new(ids(&mut rng), num(&mut rng));
